@@ -468,6 +468,16 @@ impl OcflStore for FsOcflStore {
         fs::rename(version_path, &destination)?;
 
         if let Err(e) = self.copy_inventory_files(inventory, &destination, &object_root) {
+            // The root inventory may have been partially overwritten. The previous version
+            // directory holds an identical copy of the previous root inventory; restore it.
+            let previous = object_root.join(existing_inventory.head.to_string());
+            if let Err(e) =
+                self.copy_inventory_files(&existing_inventory, &previous, &object_root)
+            {
+                error!("Failed to restore the root inventory of object {} from {}: {}. Manual intervention may be required.",
+                       inventory.id, previous.to_string_lossy(), e);
+            }
+
             if let Err(e) = fs::rename(&destination, version_path) {
                 error!("Failed to rollback version {} of object {} at {}: {}. Manual intervention may be required.",
                        version_str, inventory.id, version_path.to_string_lossy(), e);
